@@ -951,19 +951,17 @@ class _ExecutorManagerThread(threading.Thread):
                 try:
                     pid, p = self.processes.popitem()
                     mp.util.debug(f"joining process {p.name} with pid {pid}")
-                    # A worker that was killed during the shutdown can hold a
-                    # lock of the call or result queue for ever: the others
-                    # then never receive their sentinel or never get rid of
-                    # their last result. Do not wait for those. A worker
-                    # that ended with an error code of its own may have left
-                    # through os._exit while holding such a lock, or through
-                    # a failing exit handler while the others are still
-                    # running theirs: those get some time to finish first.
+                    # A worker that was killed, or left through os._exit,
+                    # during the shutdown can hold a lock of the call or
+                    # result queue for ever: the others then never receive
+                    # their sentinel or never get rid of their last result.
+                    # Do not wait for those for ever. As the worker may as
+                    # well have crashed in an exit handler while the others
+                    # are still running theirs, they get some time to finish
+                    # first. (The workers of a broken executor are stuck.)
                     p.join(timeout=0.1)
                     while p.is_alive():
-                        if self.executor_flags.broken is not None or any(
-                            (q.exitcode or 0) < 0 for q in all_processes
-                        ):
+                        if self.executor_flags.broken is not None:
                             kill_process_tree(p)
                         elif any(q.exitcode for q in all_processes):
                             patience -= 1
